@@ -349,11 +349,11 @@ pub fn snapshot(sys: &Sys, b: &Bounds, history: &[Step]) -> Snap {
         }
     }
     let injected_kinds: Vec<String> = w.log.borrow().iter().filter_map(|(_, _, r)| if let Rec::Injected { listener, kind } = r { Some(format!("{listener}:{:?}", kind)) } else { None }).collect();
-    let _ = write!(k, "R{:?}E{}X{:?}P{:?}I{}{:?}", registered, epoll_ready as u8, w.edges(), uds_path_exists, verif::injected_pending(), injected_kinds);
+    let _ = write!(k, "R{:?}E{}X{:?}P{:?}I{}{:?}Q{:?}", registered, epoll_ready as u8, w.edges(), uds_path_exists, verif::injected_pending(), injected_kinds, w.server_inbox.borrow());
     for ws in &workers {
         let _ = write!(k, "W{}[i{} l{} f{} fin{} td{}", ws.slot, ws.idx, ws.local_present as u8, ws.flag as u8, ws.finished as u8, ws.torn_down as u8);
         if let Some(v) = &ws.view {
-            let _ = write!(k, " {} tick{} el{} sv{:?} c{} q{}", v.state, dur_ms(v.shutdown_tick_in), dur_ms(v.shutdown_elapsed.map(|e| e.min(Duration::from_secs(w.cfg.shutdown_timeout_s + 1)))), v.services, v.counter_raw, v.queued);
+            let _ = write!(k, " {} tick{} el{} sv{:?} c{} q{}", v.state, dur_ms(v.shutdown_tick_in), dur_ms(v.shutdown_elapsed.map(|e| e.min(Duration::from_secs(w.cfg.shutdown_timeout_s.saturating_add(1))))), v.services, v.counter_raw, v.queued);
         }
         for svc in 0..w.cfg.listeners.len() {
             let _ = write!(k, " m{:?}", w.mode(ws.slot, svc));
